@@ -858,7 +858,7 @@ theorem getTube_init (cap : Nat) (slot : Nat) :
 
 /-- the state of `Filter` after the scan of `N` callbacks, the final `tubeEnd` and the flush -/
 def runFilter (c : Cfg) (ts : Nat → List Nat) (N qlen : Nat) : St :=
-  let l0 : Loop := { st := { tubes := Array.replicate c.cap default, hits := [] }, ticker := (c.off : Int) + c.maxError }
+  let l0 : Loop := { st := { tubes := Array.replicate c.cap default, hits := [] }, ticker := ((c.off + c.maxError : Nat) : Int) }
   let l := scanN c ts l0 N
   let st := tubeEnd c l.st (qlen - 1)
   let r := flushRange c qlen
@@ -882,14 +882,14 @@ theorem run_complete {c : Cfg} (w : WF c) (i lo hi m : Nat) (sh : Nat → Bool) 
   have hlohi : lo ≤ hi := (hs.range lo hs.first).2
   -- the scan
   have h0 : LInv c i lo hi m (tickPos c i)
-      { st := { tubes := Array.replicate c.cap default, hits := [] }, ticker := (c.off : Int) + c.maxError } 0 0 := by
+      { st := { tubes := Array.replicate c.cap default, hits := [] }, ticker := ((c.off + c.maxError : Nat) : Int) } 0 0 := by
     constructor
     · refine ⟨rfl, by simp, ?_, fun h => by omega, Or.inr (Nat.zero_le _)⟩
       intro h; rw [getTube_init] at h
       have : (default : Tube).count = 0 := rfl
       omega
     · refine ⟨0, ?_, Nat.zero_le _, fun j' hj' => by omega⟩
-      show (c.off : Int) + c.maxError = _
+      show ((c.off + c.maxError : Nat) : Int) = _
       unfold tickPos; omega
   have hscan := scan_inv w i lo hi m sh tstar ts _ hs he hthr hm1 hD hband hhiq h0 (qlen - c.k + 1)
   rw [hs.R_after _ (by omega)] at hscan
